@@ -1,3 +1,4 @@
+import TmcgProps.C05Args
 import TmcgProofs.SigmaSound
 /-
   C05 — Proofs bind every public input and every transmitted value.
